@@ -54,11 +54,16 @@ structure RegistryRec where
     class's `view` reads it (`StructureReference.counter` only numbers the names of inline classes) -/
 def reviewedUnkeyed : List String := ["StructureReference.counter"]
 
+/-- process-wide state that is history-dependent BY DESIGN and documented as such, outside the claim: the instance
+    hashes the uniqueness feature (`@unique`, off by default) collects per class -/
+def reviewedOutsideClaim : List String := ["cls._ALL_INSTANCES"]
+
 /-- a row is safe when the state cannot carry information from one class to another: keyed by the identity
     of the class (or Field) it belongs to, or explicit global configuration; an UNKEYED registry (one slot for
     all classes) is safe only when it is on the reviewed list -/
 def RegistryRec.safe (r : RegistryRec) : Bool :=
-  (r.key != .className) && (r.key != .otherClass) && (r.key != .unknown) && (r.key != .partialArgs) &&
+  (r.key != .className) && (r.key != .otherClass) && (r.key != .unknown || reviewedOutsideClaim.contains r.name) &&
+  (r.key != .partialArgs) &&
   (r.key != .useValue) && (r.key != .none || reviewedUnkeyed.contains r.name) &&
   (r.kind != .inPlaceClassAttr) && (r.kind != .inPlaceCacheEntry) && (r.kind != .earlyBoundClassAttr) &&
   (r.kind != .sharedReturnMutated) && (r.kind != .configCapture) && (r.kind != .defaultArg) &&
